@@ -5,9 +5,11 @@ use crate::{
 use futures::{pin_mut, StreamExt};
 use sos_backend::BackendTarget;
 use sos_core::{
-    commit::CommitHash, events::EventRecord, AccountId, SecretId, VaultId,
+    commit::CommitHash,
+    events::{EventLogType, EventRecord},
+    AccountId, SecretId, VaultId,
 };
-use sos_database::entity::FolderEntity;
+use sos_database::entity::{EventEntity, FolderEntity};
 use sos_vault::Summary;
 use sos_vfs as vfs;
 use std::sync::Arc;
@@ -159,9 +161,24 @@ async fn check_folder(
         BackendTarget::Database(_, client) => {
             let db_folder_id = folder_id;
             let folder_row = client
-                .conn(move |conn| {
+                .conn_and_then(move |conn| {
                     let folder_entity = FolderEntity::new(&conn);
-                    folder_entity.find_optional(&db_folder_id)
+                    let folder_row =
+                        folder_entity.find_optional(&db_folder_id)?;
+                    // A folder without any events has lost it's
+                    // event log; the file system backend reports
+                    // a missing events file in the same way
+                    if let Some(row) = &folder_row {
+                        let event_entity = EventEntity::new(&conn);
+                        let commits = event_entity.load_commits(
+                            EventLogType::Folder(db_folder_id),
+                            row.row_id,
+                        )?;
+                        if commits.is_empty() {
+                            return Ok(None);
+                        }
+                    }
+                    Ok::<_, Error>(folder_row)
                 })
                 .await?;
 
